@@ -112,6 +112,7 @@ type plCheck struct {
 func plWrap(sc *plScenario, chk plCheck) *sched.Scenario {
 	return &sched.Scenario{Name: sc.Name, Run: func(t *testing.T, ctl *sched.Ctl) sched.Outcome {
 		r := plExecute(t, sc, ctl)
+		r.snapMapping() // (the assignment at the end of the execution: the last scheduling point may lie before it)
 		a := plAnalyze(r)
 		if strings.Contains(chk.props, "1") {
 			a.checkC01()
@@ -607,7 +608,19 @@ func TestVerifC16Manager(t *testing.T) {
 		d1.Shards[0].Script, d1.Shards[1].Script, d2.Shards[0].Script = []plPack{pkIns(1000)}, []plPack{pkDel(1001)}, []plPack{pkIns(1002)}
 		scs = append(scs, &plScenario{Name: "place:2to3", SrcN: 2, TgtN: 3, Colls: []*plColl{d1, d2}, Drivers: []plDriver{{Kind: "start", Coll: 0}, {Kind: "start", Coll: 1}}, WatchMapping: true, HeavyBound: 2})
 	}
-	res.Rule = "sched engine over the real channel manager (startReadChannel / waitChannel / forwardChannel around util.ChannelMapping): placements {renamed, sorted pairing, crosswise (two collections share a source channel but live on different downstream channels), same names, 2:1, 1:2, 3:2, 2:3 channel counts} with the collections started concurrently; all start orders and schedules within the deviation bound; the connectivity check of a new handler is a scheduling point whenever the manager's channel lock is not held there; the assignment table is read through CheckKeyExist for every channel pair at every scheduling point: one image per key at any time, an image never changes or disappears, no channel serves more than ceil(larger/smaller), every subscribed source channel is assigned; plus the C02 routing oracle on what is emitted"
+	// six source channels onto three downstream channels (quota 2): one downstream channel with one free place is offered
+	// twice (two collections whose source channels are assigned elsewhere) while two new source channels wait for a place
+	{
+		pl := [][2]string{{"src-dml_1", "tgt-dml_1"}, {"src-dml_2", "tgt-dml_2"}, {"src-dml_3", "tgt-dml_2"}, {"src-dml_2", "tgt-dml_1"}, {"src-dml_3", "tgt-dml_1"}, {"src-dml_4", "tgt-dml_2"}, {"src-dml_5", "tgt-dml_2"}}
+		var colls []*plColl
+		var drv []plDriver
+		for i, p := range pl {
+			colls = append(colls, mkColl(int64(101+i), fmt.Sprintf("c%d", i+1), []string{p[0]}, []string{p[1]}))
+			drv = append(drv, plDriver{Kind: "start", Coll: i})
+		}
+		scs = append(scs, &plScenario{Name: "place:6to3-offers", SrcN: 6, TgtN: 3, Colls: colls, Drivers: drv, WatchMapping: true, HeavyBound: 1})
+	}
+	res.Rule = "sched engine over the real channel manager (startReadChannel / waitChannel / forwardChannel around util.ChannelMapping): placements {renamed, sorted pairing, crosswise (two collections share a source channel but live on different downstream channels), same names, 2:1, 1:2, 3:2, 2:3 channel counts, 6:3 with a downstream channel offered twice while two source channels wait} with the collections started concurrently; all start orders and schedules within the deviation bound; the connectivity check of a new handler is a scheduling point whenever the manager's channel lock is not held there; the assignment table is read through CheckKeyExist for every channel pair at every scheduling point: one image per key at any time, an image never changes or disappears, no channel serves more than ceil(larger/smaller), every subscribed source channel is assigned; plus the C02 routing oracle on what is emitted"
 	plExplore(t, res, "C16", bound, scs, plCheck{props: "2M"}, 150*time.Second)
 }
 
